@@ -273,7 +273,9 @@ def replay(rep, op, order, cex):
     d = snapshot.scratch_dir('c02r')
     c = cex['c']
     sym = OPS[op]
-    lit = '(%d)' % c
+    lit = ('(%r)' % c) if cex.get('isfloatconst') else ('(%d)' % c)
+    if cex.get('isfloatconst') and (c != c or c in (float('inf'), float('-inf'))):
+        return None, 'non-finite float constant cannot be written as a literal'
     if cex.get('inplace'):
         body = 'def f(x):\n    x %s= %s\n    return x\n' % (sym, lit) if order == 'ObjC' else 'def f(x):\n    return %s %s x\n' % (lit, sym)
     else:
@@ -297,6 +299,7 @@ def replay(rep, op, order, cex):
 def run(rep, tier, only=None):
     global _B
     snapshot.activate()
+    os.environ['VF_TIER'] = tier
     if tier == 'thorough':
         os.environ.setdefault('VF_QTIMEOUT', '600')
     _B = harness.build_template('c02t', TEMPLATE)
@@ -311,8 +314,16 @@ def run(rep, tier, only=None):
                    'outside: int/float subclasses (delegated arm), PyPy / Limited API arms, PyFloatBinop with float constants (C06)']
     rep.assume('CPython 3.12 PyLong/PyFloat layouts and the PyLong representation invariant', 'PyLong_FromLong/LongLong, PyFloat_FromDouble contracts (stubs)',
                'allocation failure out of scope')
+    fks = [k for k in fkernels(_B.module) if not only or only in k[0]]
+    rep.functions += ['Cython/Utility/Optimize.c: PyFloatBinop (__Pyx_PyFloat_<Op><Order>) for %d instantiations; generated call sites of c / x and c %% x' % len(fks)]
+    rep.bounds += ['PyFloatBinop: x any float (binary64), any int with |x| <= 2^53, or a foreign object; constant any non-NaN double; fmod under its C99 contract',
+                   'call sites: the compiled def functions for `7.5 / x` and `2.5 % x` run with x == 0.0 / x == 0 must raise ZeroDivisionError']
     with mp.Pool(min(16, os.cpu_count() or 4)) as pool:
         results = pool.map(check_kernel, ks, chunksize=1)
+        fresults = pool.map(check_fkernel, fks, chunksize=1)
+        cresults = pool.map(check_callsite, [c for c in CALLSITES if not only or only in c[0]], chunksize=1)
+    ks = list(ks) + list(fks) + [('callsite', 'TrueDivide' if '/' in c[1] else 'Remainder', 'CObj', False) for c in CALLSITES if not only or only in c[0]]
+    results = list(results) + list(fresults) + list(cresults)
     states = trans = 0
     for k, res in zip(ks, results):
         fname, op, order, boolret = k
@@ -332,3 +343,188 @@ def run(rep, tier, only=None):
     rep.cov['states'] = states
     rep.cov['transitions'] = trans
     rep.sample(dict(function='__Pyx_PyLong_AddObjC', input='op1 = arbitrary valid PyLongObject, intval symbolic', oracle='V + c at 256 bits'))
+
+
+# ---- PyFloatBinop: x op <float constant> / <float constant> op x ------------------------------------------------
+def fkernels(mod):
+    out = []
+    for n in sorted(mod.functions):
+        m = re.match(r'^__Pyx_PyFloat_(Bool)?(Add|Subtract|TrueDivide|Remainder|Eq|Ne)(ObjC|CObj)$', n)
+        if m:
+            out.append((n, m.group(2), m.group(3), bool(m.group(1))))
+    return out
+
+
+def check_fkernel(job):
+    from .C06 import py_float_rem, same, fpval
+    fname, op, order, boolret = job
+    out = []
+    T = int(os.environ.get('VF_QTIMEOUT', '60'))
+    t0 = time.time()
+    for xkind in ('float', 'int', 'other'):
+        tagname = '%s[%s]' % (fname.replace('__Pyx_', ''), xkind)
+        try:
+            ex, env = _B.new_exec(unroll=4)
+            delegated = []
+
+            def indirect(ex_, g, args, rt, caller):
+                r = env.new_object('delegated', dict(kind='delegated'))
+                e = env.event(g, 'DELEGATED', args[1:], ex_.ptr_to(r))
+                delegated.append(e)
+                return ex_.ptr_to(r) if rt.kind == 'ptr' else ex_.fresh_of(rt, 'delegated')
+            ex.stubs['<indirect>'] = indirect
+            asd = {}
+
+            def as_double(ex_, g, args, rt, caller):
+                # PyLong_AsDouble contract: the correctly rounded double of the int (or -1.0 with OverflowError); modelled as
+                # round-to-nearest conversion of the ghost value for |V| < 2^63, uninterpreted beyond
+                gh = env.ghost_of(args[0])
+                env.event(g, 'PyLong_AsDouble', args)
+                v64 = z3.Extract(63, 0, gh['value'])
+                small = z3.SignExt(stubs.WIDE - 64, v64) == gh['value']
+                big = z3.FP('aslong_double_big', z3.Float64())
+                return z3.If(small, z3.fpSignedToFP(symex.RNE, v64, z3.Float64()), big)
+            ex.stubs['PyLong_AsDouble'] = as_double
+            for nm in ('PyObject_RichCompare', '__Pyx_PyObject_RichCompareBool', 'PyObject_RichCompareBool'):
+                ex.stubs[nm] = (lambda n_: (lambda ex_, g, args, rt, caller: indirect(ex_, g, [None] + args[:2], rt, caller)))(nm)
+            D = None
+            if xkind == 'float':
+                x, D, inv = env.make_pyfloat('x')
+            elif xkind == 'int':
+                x, V, inv = env.make_pylong('x', 5)
+                v64 = z3.Extract(63, 0, V)
+                # the reference value of an int operand: exact for |V| <= 2^53 (every such int is a double)
+                D = z3.fpSignedToFP(symex.RNE, v64, z3.Float64())
+            else:
+                x, inv = env.make_opaque('x', tpflags=0)
+            cobj, cinv = env.make_opaque('cobj', tpflags=0)
+            F = z3.FP('floatval', z3.Float64())
+            inplace = z3.BitVec('inplace', 32); zdc = z3.BitVec('zerodivision_check', 32)
+            env.exc_type('PyExc_ZeroDivisionError')
+            tr = ex.global_ptr('_Py_TrueStruct'); fa = ex.global_ptr('_Py_FalseStruct')
+            op1, op2 = (x, cobj) if order == 'ObjC' else (cobj, x)
+            ret, rg = ex.run(fname, [op1, op2, F, inplace, zdc])
+        except (symex.Unsupported, ir.ParseError, KeyError, IndexError) as e:
+            out.append(dict(name=tagname + ':encode', status='inconclusive', s=time.time() - t0, detail='Unsupported: %s' % e))
+            continue
+        pre = [inv, cinv, z3.Or(inplace == 0, inplace == 1), z3.Or(zdc == 0, zdc == 1), z3.Not(z3.fpIsNaN(F))] + list(ex.assumptions)
+        if order == 'ObjC' and op in ('TrueDivide', 'Remainder'):
+            pre.append(z3.Not(z3.fpIsZero(F)))          # x / 0.0 with a literal zero is not routed here by the compiler
+        if xkind == 'int':
+            pre.append(z3.And(V >= -(1 << 53), V <= (1 << 53)))
+        deleg_ok = z3.BoolVal(False)
+        for e in delegated:
+            a_ok = z3.And(e.args[0].bv == op1.bv, e.args[1].bv == op2.bv) if len(e.args) >= 2 and e.args[0] is not None else z3.BoolVal(True)
+            samep = (ret.bv == e.ret.bv) if isinstance(ret, symex.Ptr) else z3.BoolVal(True)
+            deleg_ok = z3.Or(deleg_ok, z3.And(e.guard, a_ok, samep))
+        ctors = [e for e in ex.events if e.name == 'PyFloat_FromDouble']
+
+        def ob(name, conds, kind='unsat', mandatory=True):
+            if xkind == 'int' and kind == 'unsat' and ('value ==' in name or 'result ==' in name):
+                # int operand through int->double conversion circuits: attempted in the thorough tier only, never mandatory
+                mandatory = False
+                if os.environ.get('VF_TIER') != 'thorough':
+                    return
+            r, m, s = 'unsat', None, 0.0
+            if kind == 'unsat' and getattr(ex, 'fmod_apps', None):
+                # first look for a counterexample on the grid where the fmod model is exact (such a counterexample replays)
+                r, m, s = solve.check(pre + list(ex.assumptions) + conds + stubs.grid_constraint(ex), T)
+            if r != 'sat':
+                r, m, s2 = solve.check(pre + list(ex.assumptions) + conds, T)
+                s += s2
+            d = dict(name=tagname + ':' + name, s=s, mandatory=mandatory, fkernel=True)
+            d['status'] = ({'unsat': 'proved', 'sat': 'refuted'} if kind == 'unsat' else {'sat': 'witness', 'unsat': 'vacuous'}).get(r, 'inconclusive')
+            if r == 'sat' and kind == 'unsat':
+                cex = dict(c=fpval(m, F), inplace=m.eval(inplace, model_completion=True).as_long(), kind=xkind, isfloatconst=True)
+                if xkind == 'int':
+                    cex['x'] = m.eval(V, model_completion=True).as_signed_long()
+                elif xkind == 'float':
+                    cex['x_bits'] = m.eval(z3.fpToIEEEBV(D), model_completion=True).as_long()
+                d['cex'] = cex
+            out.append(d)
+        if xkind == 'other':
+            ob('foreign operand is delegated to CPython with (op1, op2) in order', [rg, z3.Not(deleg_ok)])
+            continue
+        # int operand: operand lemma on the int -> double conversions the helper performs (each converts exactly the value
+        # of x), then the reference is evaluated on the helper's own converted value (exact for |x| <= 2^53)
+        if xkind == 'int':
+            convs = [d for d in ex.arith_log if d['op'] in ('sitofp', 'uitofp') and d['fn'] == fname]
+            lemma = []
+            for d in convs:
+                xv = sx(d['x']) if d['op'] == 'sitofp' else z3.ZeroExt(stubs.WIDE - d['x'].size(), d['x'])
+                mag_ok = z3.Or(xv == V, z3.And(d['op'] == 'uitofp', xv == z3.If(V < 0, -V, V)))
+                lemma.append(z3.And(d['g'], z3.Not(mag_ok)))
+            ob('operand lemma: every int->double conversion converts exactly x (or |x|, negated afterwards)', [z3.Or(*lemma)] if lemma else [z3.BoolVal(False)])
+            Ds = [(d['g'], d['r'] if d['op'] == 'sitofp' else z3.If(V < 0, z3.fpNeg(d['r']), d['r'])) for d in convs]
+            Ds.append((V == 0, z3.FPVal(0.0, z3.Float64())))
+        else:
+            Ds = [(z3.BoolVal(True), D)]
+        tr_, fa_ = tr, fa
+        if op in ('Eq', 'Ne'):
+            good = z3.BoolVal(False)
+            for gd, Dv in Ds:
+                a_, b_ = (Dv, F) if order == 'ObjC' else (F, Dv)
+                truth = z3.fpEQ(a_, b_) if op == 'Eq' else z3.Not(z3.fpEQ(a_, b_))
+                gg = z3.And(rg, ret == z3.If(truth, z3.BitVecVal(1, 32), z3.BitVecVal(0, 32))) if boolret else z3.And(rg, ret.bv == z3.If(truth, tr.bv, fa.bv))
+                good = z3.Or(good, z3.And(gd, gg))
+            ob('result == (x %s c)' % OPS[op], [z3.Not(z3.Or(good, deleg_ok))])
+            continue
+        zerr = z3.And(rg, ret.bv == 0, env.error_is('PyExc_ZeroDivisionError'))
+        okv = z3.BoolVal(False)
+        divisor_zero = z3.fpIsZero(F) if order == 'ObjC' else (z3.fpIsZero(D) if xkind == 'float' else V == 0)
+        for gd, Dv in Ds:
+            a_, b_ = (Dv, F) if order == 'ObjC' else (F, Dv)
+            if op == 'Remainder':
+                R = py_float_rem(ex, a_, b_)
+            else:
+                R = {'Add': z3.fpAdd, 'Subtract': z3.fpSub, 'TrueDivide': z3.fpDiv}[op](symex.RNE, a_, b_)
+            for e in ctors:
+                okv = z3.Or(okv, z3.And(gd, e.guard, ret.bv == e.ret.bv, same(env.ghost_of(e.ret)['value'], R)))
+        pre2 = list(ex.assumptions)
+        if op in ('TrueDivide', 'Remainder'):
+            ob('zero divisor raises ZeroDivisionError when the compiler requests the check', [zdc == 1, divisor_zero, z3.Not(zerr)] + pre2)
+            ob('value == CPython (IEEE / float_rem) for a non-zero divisor, bit for bit', [z3.Not(divisor_zero), z3.Not(z3.And(rg, z3.Or(okv, deleg_ok)))] + pre2)
+        else:
+            ob('value == IEEE x %s c bit for bit' % OPS[op], [z3.Not(z3.And(rg, z3.Or(okv, deleg_ok)))] + pre2)
+        ob('reach', [rg, z3.Not(divisor_zero)], kind='witness')
+    return out
+
+
+CALLSITES = [('fdiv_cobj', '7.5 / x'), ('fmod_cobj', '2.5 % x')]
+
+
+def check_callsite(job):
+    """the def function the compiler generated for `c / x` / `c %% x`: with x == 0.0 or x == 0 it must raise ZeroDivisionError
+    (this covers the zerodivision_check flag that Optimize.optimise_numeric_binop passes to the helper)"""
+    fn, expr = job
+    out = []
+    T = int(os.environ.get('VF_QTIMEOUT', '60'))
+    for xkind in ('float', 'int'):
+        name = 'callsite %s [%s zero]' % (expr, xkind)
+        t0 = time.time()
+        try:
+            ex, env = _B.new_exec(unroll=4)
+            ex.stubs['<indirect>'] = lambda ex_, g, args, rt, caller: ex_.fresh_of(rt, 'indirect')
+            if xkind == 'float':
+                x, D, inv = env.make_pyfloat('x')
+                zero = z3.fpIsZero(D)
+            else:
+                x, V, inv = env.make_pylong('x', 5)
+                zero = V == 0
+            selfp, sinv = env.make_opaque('self', 0)
+            env.exc_type('PyExc_ZeroDivisionError')
+            pf = [n for n in _B.module.functions if re.match(r'^__pyx_pf_\d+c02t_\d*%s$' % fn, n)]
+            ret, rg = ex.run(pf[0], [selfp, x])
+        except (symex.Unsupported, ir.ParseError, KeyError, IndexError) as e:
+            out.append(dict(name=name + ':encode', status='inconclusive', s=time.time() - t0, detail='Unsupported: %s' % e))
+            continue
+        pre = [inv, sinv] + list(ex.assumptions)
+        r, m, s = solve.check(pre + [zero, z3.Not(z3.And(rg, ret.bv == 0, env.error_is('PyExc_ZeroDivisionError')))], T)
+        d = dict(name=name + ': raises ZeroDivisionError', s=s, status={'unsat': 'proved', 'sat': 'refuted'}.get(r, 'inconclusive'), mandatory=True)
+        if r == 'sat':
+            d['cex'] = dict(c=float(expr.split()[0]), kind=xkind, x=0, x_bits=0, inplace=0, isfloatconst=True, expr=expr)
+            d['callsite'] = expr
+        out.append(d)
+        r, m, s = solve.check(pre + [z3.Not(zero), rg], T)
+        out.append(dict(name=name + ': reach (non-zero x returns)', s=s, status={'sat': 'witness', 'unsat': 'vacuous'}.get(r, 'inconclusive'), mandatory=True))
+    return out
